@@ -300,7 +300,7 @@ fn c04_2e_steal_two() {
 //@ obligation: C04.2g
 //@ kind: K2
 //@ complete: no
-//@ tier: thorough
+//@ tier: experimental
 //@ mem: 28
 //@ bound: one concrete schedule: 1 push, stealer pop x2; symbolic payload
 //@ safety-counts: yes
